@@ -126,3 +126,74 @@ def params(a, b=1, *rest, c, d=2, **kw): return [a, b], {c: d, **kw}, (rest, kw)
 del first, second[0], third.attr
 import alpha, beta.gamma as bg, delta
 ''')
+
+# e6: keyword-adjacent headers and identifiers that begin with keywords (also as the first token of block statements)
+EXTRA.append('''\
+if(a): r = 1
+elif(b):
+    r = 2
+elif[c][0]:
+    r = 3
+else:
+    elif_count = 4
+if a:
+    pass
+else:
+    elif_count = 1
+    else_ = 2
+while(a):
+    iffy = 1
+else:
+    elif_x = iffy
+for(x)in(y):
+    notx = x
+else:
+    else_y = 0
+try:
+    import_x = 1
+except(E):
+    async_x = 2
+else:
+    elif_z = 3
+finally:
+    else_w = 4
+with(a)as(b):
+    format = b
+def ret():
+    if a:
+        return(x)
+    elif"s":
+        return[x]
+    else:
+        elif_r = yield(x)
+    assert(x), (y)
+    del(x)
+    raise(E)from(F)
+async def co():
+    v = await(x)
+    w = not(x) and(y) or(z) in(q) is(r)
+    return lambda:(x)
+match(x):
+    case(1):
+        pass
+    case[y]:
+        elif_m = y
+''')
+
+# e7: operands followed by keywords (if / else / for / in / and / or / is / not in), one construct per line, so that the
+# wrapbreak + kwadj layouts give `(a +\n b)if c else d`, `[x for x in(p or\n q)if c]`, `(a\n .b)and(c)`
+EXTRA.append('''\
+x = [a + b if c else d]
+v = [k.attr for k in p or q if k.w]
+y = {k: 1 if p or q else 2 for k in z.items}
+z = a.b and c.d or e + f
+w = a + b in c.d
+u = a - b is not c.e
+t = not a.b if a * b else c - d
+s = [i * j for i in r.s for j in i.t if i < j and j]
+def pick(seq):
+    return [v.x for v in seq.items if v.y and v.z]
+def gen(seq):
+    return (m + n for m in seq.a or seq.b if m not in seq.c)
+q = a + b if c + d else e + f
+''')
